@@ -3,8 +3,8 @@ import MlModel.Lemmas.AggRollingMeanVar
 # Witnesses for the defects of the rolling family that were repaired (models of the ORIGINAL code)
 
 * F2 — `MeanAndVariance.merge` combined the two weighted variances with `+`: `0 * NaN = NaN`.
-* F23 — `a.merge(fresh)` raised `ValueError` for UnboundedSampler / ValueAccumulator / TupleMeanState.
-(F3 is `C11_rolling_reservoir_F3_witness`, F24 and F15 are in `Properties/C07/Rolling.lean`.)
+* F25 — `a.merge(fresh)` raised `ValueError` for UnboundedSampler / ValueAccumulator / TupleMeanState.
+(F3 is `C11_rolling_reservoir_F3_witness`, F26 and F15 are in `Properties/C07/Rolling.lean`.)
 -/
 namespace MlModel.Witness
 open MlModel.Agg MlModel.Agg.Rolling
@@ -31,7 +31,7 @@ theorem F2_witness :
       (MV.ofRows 2 (b1 ++ b2)).result.var = [some (35 / 16), some 1] := by
   decide +kernel
 
-/-- F23 (tests): the original `merge` raised on a never-updated operand; the repaired one returns
+/-- F25 (tests): the original `merge` raised on a never-updated operand; the repaired one returns
 the receiver unchanged -/
 theorem F23_witness :
     US.merge false (US.ofCols [[1, 2]]) (US.fresh : US Nat) = .error .value ∧
